@@ -4,7 +4,7 @@ CONSTANTS
   Flags <- OnlyDeleted
   MaxMsgs = 1
   MaxUid = 2
-  MaxQueue = 2
+  MaxQueue = 1
   Kinds <- AllKinds
   SeqSets <- Sets2
   UidSets <- Sets2
